@@ -822,6 +822,23 @@ def r10(rr, repo):
           first[0] if first else (plain[0] if plain else ifn), witness=(U(first[0])[:60] if first else '') + (f'; {U(plain[0])[:60]}' if plain else ''), key='default-position-end')
 
 
+def _offset_from_delimiter(text):
+    """for a position written as <something> + (<..>.rfind(..) [+|- c]) (either order): the constant added to the index of the delimiter; None when the text has another form"""
+    try:
+        e = ast.parse(text, mode='eval').body
+    except SyntaxError:
+        return None
+    if not (isinstance(e, ast.BinOp) and isinstance(e.op, ast.Add)):
+        return None
+    for x in (e.right, e.left):
+        if isinstance(x, ast.Call) and isinstance(x.func, ast.Attribute) and x.func.attr == 'rfind':
+            return 0
+        if isinstance(x, ast.BinOp) and isinstance(x.op, (ast.Add, ast.Sub)) and isinstance(x.left, ast.Call) and isinstance(x.left.func, ast.Attribute) and x.left.func.attr == 'rfind' and \
+                isinstance(x.right, ast.Constant) and isinstance(x.right.value, int):
+            return x.right.value if isinstance(x.op, ast.Add) else -x.right.value
+    return None
+
+
 @rule('C13.R16', "'end' is a record boundary: a reader that attaches at the end of a file (the constructor of a follower, seek(('end', ..)), seek((file, 'end'))) while the writer is handing a record to the kernel "
                  "must not be parked INSIDE that record - what follows would be read as a record (torn). On every path of seek() that goes to the physical end of the read file, the position finally "
                  "taken is derived from the last delimiter found, unless the log has no delimiters ('bin') or the file is empty")
@@ -844,7 +861,40 @@ def r16(rr, repo):
             ok = "rfind(b'\\n')" in arg or 'rfind(b"\\n")' in arg or arg == '0' or arg.startswith('max(0,')       # a position computed from the last newline (or the start of the file when there is none)
             uses_rfind = 'rfind(' in arg
             found = any('rfind(' in k and v is True for k, v in p.pc)          # ... and only when that search FOUND one: rfind() answers -1 otherwise, and `start + (-1) + 1` is the start of the block looked at - inside the record
-            if ok and uses_rfind and not found:
+            reads_after = [e for e in p.events[p.events.index(last) + 1:] if e.kind == 'call' and e.term.endswith(('.read', '.readline', '.readlines'))]
+            def found_position_shape(text):
+                # <block start> + (<file>.read(<end> - <block start>).rfind(b'\n') + 1), block start = max(0, <end> - <positive constant>): the byte after the last delimiter of the block that was read
+                try:
+                    e = ast.parse(text, mode='eval').body
+                except SyntaxError:
+                    return False
+                if not (isinstance(e, ast.BinOp) and isinstance(e.op, ast.Add)):
+                    return False
+                if isinstance(e.left, ast.BinOp) and isinstance(e.left.op, ast.Add) and isinstance(e.right, ast.Constant):          # (start + index) + 1
+                    e = ast.BinOp(left=e.left.left, op=ast.Add(), right=ast.BinOp(left=e.left.right, op=ast.Add(), right=e.right))
+                elif isinstance(e.left, ast.BinOp) and isinstance(e.left.op, ast.Add) and isinstance(e.left.right, ast.Constant) and not isinstance(e.right, ast.BinOp):      # (index + 1) + start
+                    e = ast.BinOp(left=e.right, op=ast.Add(), right=e.left)
+                if not (isinstance(e.right, ast.BinOp) and isinstance(e.right.op, ast.Add)):
+                    return False
+                L, R = e.left, e.right
+                one = isinstance(R.right, ast.Constant) and R.right.value == 1
+                rf = R.left
+                if not (one and isinstance(rf, ast.Call) and isinstance(rf.func, ast.Attribute) and rf.func.attr == 'rfind' and isinstance(rf.func.value, ast.Call) and isinstance(rf.func.value.func, ast.Attribute) and rf.func.value.func.attr == 'read'):
+                    return False
+                rd = rf.func.value
+                size_ok = len(rd.args) == 1 and isinstance(rd.args[0], ast.BinOp) and isinstance(rd.args[0].op, ast.Sub) and U(rd.args[0].right) == U(L)
+                start_ok = isinstance(L, ast.Call) and U(L.func) == 'max' and len(L.args) == 2 and U(L.args[0]) == '0' and isinstance(L.args[1], ast.BinOp) and isinstance(L.args[1].op, ast.Sub) and \
+                    isinstance(L.args[1].right, ast.Constant) and isinstance(L.args[1].right.value, int) and L.args[1].right.value > 0 and size_ok and U(rd.args[0].left) == U(L.args[1].left)
+                return start_ok
+            if reads_after:
+                rr.ob("the position taken at 'end' is the one after the last delimiter", False, mod, last.node, witness=f'the file is read again after the last seek ({reads_after[0].term}): the reader is left behind what was read, not where the seek put it', key='end-is-a-record-boundary')
+            elif found and not uses_rfind:
+                rr.ob("the position taken at 'end' is the one after the last delimiter", False, mod, last.node, witness=f'a delimiter was found on this path, the position taken ({arg[-60:]}) is not derived from it (the search went on past it)', key='end-is-a-record-boundary')
+            elif found and uses_rfind and not found_position_shape(arg) and _offset_from_delimiter(arg) not in (None, 1):
+                rr.ob("the position taken at 'end' is the one after the last delimiter", False, mod, last.node, witness=f'block start + index of the delimiter + ({_offset_from_delimiter(arg)}): not the byte after the delimiter', key='end-is-a-record-boundary')
+            elif found and uses_rfind and not found_position_shape(arg):
+                rr.unresolved("how the position after the delimiter that was found is computed was not recognised (expected: block start + index of the delimiter + 1, the block being the last N bytes before the position searched from)", mod, last.node, witness=arg[-150:], key='end-is-a-record-boundary')
+            elif ok and uses_rfind and not found:
                 rr.ob("the position taken at 'end' is the one after the last delimiter", False, mod, last.node, witness=f'{arg[-80:]} is taken also when the block holds no delimiter (nothing on this path tests what rfind found)', key='end-is-a-record-boundary')
             elif ok:
                 rr.ob("the position taken at 'end' is the one after the last delimiter", True, mod, last.node, witness=arg[-90:], key='end-is-a-record-boundary')
